@@ -119,6 +119,8 @@ def run(ctx):
     for k in range(ctx.n(16, 120)):
         kind = ['Circular', 'RadialGradient', 'BackgroundSubtraction', 'RadialGradientBackgroundSubtraction'][k % 4]
         r1, r2 = float(rng.choice([2.0, 2.5, 3.0])), float(rng.choice([1.5, 2.0, 3.5]))
+        if kind == 'RadialGradientBackgroundSubtraction' and r2 > r1:
+            r1, r2 = r2, r1          # its default radial map is sized at construction: a later, larger radius would not fit into it
         search = 5.0
         mk = lambda r: {'kind': kind, 'radius': r, 'search': search, 'radius_outer': (r + 1.0 if 'Background' in kind else None)}
         pattern = cl.pattern_from_desc(mk(r1))
